@@ -183,7 +183,7 @@ def run(ctx):
         log("BUILD FAILED (harness place):\n" + out[-3000:])
         raise SystemExit(2)
     vlib.regen_consts("Place", "place")
-    proofs_ok, info = ctx.check_proofs(make_targets=["Place/Proofs.vo", "Place/ProofsV2.vo", "Properties/C17.vo"],
+    proofs_ok, info = ctx.check_proofs(make_targets=["Place/Proofs.vo", "Place/ProofsV2.vo", "Place/ProofsV2Fresh.vo", "Properties/C17.vo"],
                                        gate_paths=["Place", "Part/Model", "Common", "Properties/C17"])
     mok, mout, _ = vlib.model_build("Place")
     if not mok:
